@@ -297,15 +297,24 @@ func C13(r *h.Run) {
 					}
 					_ = st.Close()
 				default:
-					// one bidi stream, sent on and received from concurrently
-					st := cs.bidi.CallBidiStream(context.Background())
+					// one bidi stream, sent on and received from concurrently; every third one is
+					// cancelled in mid-flight (its results are not judged, only its memory accesses)
+					ctx, cancel := context.WithCancel(context.Background())
+					cancelled := lr.Intn(3) == 0
+					st := cs.bidi.CallBidiStream(ctx)
 					n := 4
+					if cancelled {
+						n = 40
+					}
 					var inner sync.WaitGroup
 					inner.Add(1)
 					go func() {
 						defer inner.Done()
 						for i := 0; i < n; i++ {
 							m, err := st.Receive()
+							if cancelled && err != nil {
+								return
+							}
 							if err != nil || !bytes.Equal(m.B, append([]byte("b:"), payload(g, k*10+i, size, 'B')...)) {
 								fail("bidi stream: received a message of another call or an error", in)
 								return
@@ -313,12 +322,21 @@ func C13(r *h.Run) {
 						}
 					}()
 					for i := 0; i < n; i++ {
+						if cancelled && i == 2+lr.Intn(10) {
+							cancel()
+						}
 						if err := st.Send(&h.Raw{B: payload(g, k*10+i, size, 'B')}); err != nil {
-							fail("bidi stream: send failed", in)
+							if !cancelled {
+								fail("bidi stream: send failed", in)
+							}
 							break
 						}
 					}
+					if cancelled {
+						cancel()
+					}
 					inner.Wait()
+					cancel()
 					_ = st.CloseRequest()
 					_ = st.CloseResponse()
 				}
